@@ -1,6 +1,7 @@
 package tree
 
 import (
+	"regexp"
 	"strconv"
 	"strings"
 
@@ -125,6 +126,8 @@ func (cs *CommandStatement) split(str string) []*CommandStatementElement {
 	return elements
 }
 
+var commandNumberRegexp = regexp.MustCompile(`^-?[0-9]+(\.[0-9]+)?$`)
+
 func valueFromCommandText(commandText string) *variable.Value {
 	if commandText == "true" {
 		return variable.NewBoolean(true)
@@ -132,7 +135,7 @@ func valueFromCommandText(commandText string) *variable.Value {
 		return variable.NewBoolean(false)
 	}
 
-	if commandText[0] == '+' { // see Antlr grammar, numbers don't start with + even though Go would be happy to parse them
+	if !commandNumberRegexp.MatchString(commandText) { // see Antlr grammar, Go would be happy to parse more than the NUMBER token (eg. +1, 1e3, Inf, NaN)
 		return variable.NewString(commandText)
 	}
 	numberValue, err := strconv.ParseFloat(commandText, 64)
